@@ -378,8 +378,125 @@ fn f8() {
     }
 }
 
+/// F3: squfof multiplies n by k <= 50 without checking for overflow
+fn f3() {
+    use yamaquasi::{factor, Algo, Preferences, Verbosity};
+    let n = 981572983530105943u64;
+    let mut prefs = Preferences::default();
+    prefs.verbosity = Verbosity::Silent;
+    let r = catch_unwind(AssertUnwindSafe(|| factor(Uint::from(n), Algo::Squfof, &prefs)));
+    match r {
+        Err(_) => fail("f3", format!("factor({n}, Algo::Squfof): panic (attempt to multiply with overflow in squfof)")),
+        Ok(Ok(v)) => {
+            let p: Uint = v.iter().fold(Uint::ONE, |a, b| a * *b);
+            if p != Uint::from(n) {
+                fail("f3", format!("factor({n}, Algo::Squfof) = {v:?}"));
+            }
+        }
+        Ok(Err(_)) => {}
+    }
+}
+
+/// F4: try_factor(n, 0, 0) (a valid congruence 0^2 = 0^2) trips its own assertion
+fn f4() {
+    let n = Uint::from(15u64);
+    let r = catch_unwind(|| yamaquasi::relations::try_factor(&n, Uint::ZERO, Uint::ZERO));
+    match r {
+        Err(_) => fail("f4", "relations::try_factor(15, 0, 0): panic (assertion p.bits() > 1 && q.bits() > 1)".to_string()),
+        Ok(Some((p, q))) if p * q != n || p == Uint::ONE || q == Uint::ONE => fail("f4", format!("try_factor(15, 0, 0) = ({p}, {q})")),
+        _ => {}
+    }
+}
+
+/// F12: pm1_impl with B1 >= 65536 multiplies its 1024-bit exponent block by a 64-bit block while up to 992 bits are in use
+fn f12() {
+    use std::str::FromStr;
+    use yamaquasi::Verbosity;
+    // p - 1 = 2 * 7 * 65537 * 65539 is 65540-smooth: P-1 with B1 = 70000 must find p
+    let p = Uint::from(2u64 * 7 * 65537 * 65539 + 1);
+    let q = Uint::from_str("1000000000000000000000000000057").unwrap();
+    let n = p * q;
+    for b1 in [65536u64, 70000, 100_000, 300_000] {
+        let r = catch_unwind(AssertUnwindSafe(|| yamaquasi::pollard_pm1::pm1_impl(&n, b1, 10e3, Verbosity::Silent)));
+        match r {
+            Err(_) => fail("f12", format!("pm1_impl(n={n}, b1={b1}, b2=10e3): panic (attempt to multiply with overflow: expblock_lg *= expblock)")),
+            Ok(None) if b1 >= 70000 => fail("f12", format!("pm1_impl(n={n}, b1={b1}, b2=10e3) = None although p-1 = 2*7*65537*65539 is b1-smooth for p = {p}")),
+            _ => {}
+        }
+    }
+}
+
+/// gcd_factors: for a sequence of values whose gcds with n increase by divisibility, the returned factors are > 1
+/// and multiply, together with the returned cofactor, to n
+fn gcdfactors(rng: &mut Rng, iters: u64) {
+    use yamaquasi::arith_montgomery::{gcd_factors, ZmodN};
+    const PR: [u64; 10] = [3, 5, 7, 11, 13, 17, 19, 23, 29, 31];
+    const CO: [u64; 4] = [2, 37, 41, 43];
+    for _ in 0..iters {
+        // n = product of 2..5 distinct odd primes with exponent 1 or 2 (< 2^50)
+        let k = 2 + (rng.next() % 4) as usize;
+        let mut chosen: Vec<u64> = vec![];
+        while chosen.len() < k {
+            let p = PR[(rng.next() % 10) as usize];
+            if !chosen.contains(&p) {
+                chosen.push(p);
+            }
+        }
+        let mut n = 1u64;
+        let mut pool: Vec<u64> = vec![];
+        for &p in &chosen {
+            let e = 1 + rng.next() % 2;
+            for _ in 0..e {
+                n *= p;
+                pool.push(p);
+            }
+        }
+        // divisor chain d_0 | d_1 | ... of n, each step multiplies by 0, 1 or 2 primes of the pool
+        let len = 1 + (rng.next() % 9) as usize;
+        let mut d = 1u64;
+        let mut vals64 = vec![];
+        for i in 0..len {
+            let steps = if i == 0 { rng.next() % 2 } else { rng.next() % 3 };
+            for _ in 0..steps {
+                if !pool.is_empty() {
+                    let j = (rng.next() % pool.len() as u64) as usize;
+                    d *= pool.swap_remove(j);
+                }
+            }
+            vals64.push(d * CO[(rng.next() % 4) as usize]);
+        }
+        let nn = Uint::from(n);
+        let desc = format!("gcd_factors(n={n}, vals={vals64:?} (Montgomery form))");
+        let r = catch_unwind(AssertUnwindSafe(|| {
+            let zn = ZmodN::new(nn);
+            let vals: Vec<MIntT> = vals64.iter().map(|&x| zn.from_int(Uint::from(x) % nn)).collect();
+            gcd_factors(&nn, &vals)
+        }));
+        match r {
+            Err(_) => fail("gcdfactors", format!("{desc}: panic")),
+            Ok((facs, cof)) => {
+                let mut prod = cof;
+                for f in &facs {
+                    if *f <= Uint::ONE {
+                        fail("gcdfactors", format!("{desc} = ({facs:?}, {cof}): a factor <= 1"));
+                    }
+                    prod *= *f;
+                }
+                if prod != nn {
+                    fail("gcdfactors", format!("{desc} = ({facs:?}, {cof}): product {prod} != n"));
+                }
+            }
+        }
+    }
+}
+type MIntT = yamaquasi::arith_montgomery::MInt;
+
 pub fn run(case: &str, rng: &mut Rng, iters: u64) -> bool {
     match case {
+        "gcdfactors" => gcdfactors(rng, iters),
+        "f12" => f12(),
+        "f4" => f4(),
+        "f3" => f3(),
         "f7" => f7(),
         "f8" => f8(),
         "primes" => primes_case(rng, iters),
